@@ -209,6 +209,12 @@ class Check:
 # a `char` compared with EOF or a sign test on a byte change meaning there while the x86-64 test build is unaffected.
 VARIANTS = [("ndebug.", ["-DNDEBUG"]), ("uchar.", ["-funsigned-char"])]
 VARIANT_SKIP_QUICK = ()
+# ilp32: the 32-bit ARM targets the library is written for (int, long and pointers 32 bits, char unsigned), compiled
+# freestanding against prototype-only stand-ins for the libc headers (sa/stubs/ilp32; IR only, nothing is linked or run).
+# Only the checks whose rules are not written against the LP64 layout take part (the others say so in DESIGN 11.13).
+_STUBS = os.path.join(os.path.dirname(os.path.abspath(__file__)), "stubs", "ilp32")
+ILP32 = ("ilp32.", ["--target=armv7m-none-eabi", "-ffreestanding", "-isystem", _STUBS])
+ILP32_CHECKS = ("C08", "C14", "C16", "C17", "C18", "C19")
 
 
 def run_check(pid, runner, tier, seed):
@@ -217,7 +223,7 @@ def run_check(pid, runner, tier, seed):
         runner(chk)
         if not os.environ.get("VERIF_NO_VARIANTS") and (tier == "thorough" or pid not in VARIANT_SKIP_QUICK):
             from . import build
-            for prefix, flags in VARIANTS:
+            for prefix, flags in VARIANTS + ([ILP32] if pid in ILP32_CHECKS else []):
                 chk.rule_filter, chk.rule_prefix, chk.variant = None, "", prefix
                 build.OVERLAY[:] = list(flags)
                 try:
@@ -234,8 +240,8 @@ def run_check(pid, runner, tier, seed):
                 setattr(chk, name, out)
             chk.assumptions.append("every rule is decided on three builds: the default one, -DNDEBUG (rule ids prefixed 'ndebug.': no verdict "
                                    "rests on an assert() that a release build compiles out) and -funsigned-char ('uchar.': plain char as on "
-                                   "the ARM targets); ILP32 targets (32-bit long and pointers) cannot be compiled in this sandbox and are "
-                                   "NOT covered")
+                                   "the ARM targets); an ILP32 ARM build ('ilp32.', freestanding against prototype-only libc headers) is added "
+                                   "for C08, C14, C16, C17, C18, C19 only - the other checks' rules assume the LP64 layout")
     except AnalysisError as e:
         chk.rule_filter, chk.rule_prefix = None, ""     # an imported rule set may have been active: never filter this
         chk.unknown("analysis", "engine", str(e))
